@@ -8,6 +8,7 @@ import (
 	"bytes"
 	"encoding/json"
 	"fmt"
+	"io"
 	"math/rand"
 	"net/http"
 	"os"
@@ -234,7 +235,7 @@ func (d *c14Drv) httpCase(kinds []string, spare bool, trailingNL bool, eager boo
 	if len(d.samples) < 2 && len(lines) > 3 {
 		d.samples = append(d.samples, KV{"document": sb.String()})
 	}
-	tr := vegeta.NewHTTPTargeter(strings.NewReader(sb.String()), defBody, defHdr)
+	tr := vegeta.NewHTTPTargeter(d.source(sb.String()), defBody, defHdr)
 	if eager {
 		tgts, err := vegeta.ReadAllTargets(tr)
 		switch {
@@ -323,7 +324,7 @@ func (d *c14Drv) jsonCase(n int, spare bool, viaEncoder bool) {
 	// requires an unterminated last line to be reported as exhaustion, so it is outside the domain
 	doc := buf.String()
 	d.tr.Emit("Reset", KV{"format": "json", "lines": lines, "defs": defList, "defbody": string(defBody), "spare": spare, "encoder": viaEncoder})
-	d.decodeAll(vegeta.NewJSONTargeter(strings.NewReader(doc), defBody, defHdr))
+	d.decodeAll(vegeta.NewJSONTargeter(d.source(doc), defBody, defHdr))
 	d.tr.Emit("Defaults", KV{"defs": hdrList(defHdr)})
 	d.tr.Emit("End", nil)
 }
@@ -401,4 +402,46 @@ func TestDrv_C14(t *testing.T) {
 		d.httpCase([]string{"REQ", "HDR", "BLANK", "REQ", "HDR", "HDR", "BLANK", "REQ"}, true, true, false)
 	}
 	writeJSON(filepath.Join(dir, "c14.summary.json"), KV{"cases": d.cases, "tlc_cases": tlc, "random_docs": 2 * n, "events": d.tr.N, "samples": d.samples})
+}
+
+// source hands the document to the targeter the way different inputs do: at once (a file in memory), a line per Read
+// (a pipe written line by line), a byte per Read, or in arbitrary pieces.
+func (d *c14Drv) source(doc string) io.Reader {
+	switch d.r.Intn(4) {
+	case 0:
+		return strings.NewReader(doc)
+	case 1:
+		return &pieceReader{data: []byte(doc), next: func(rest []byte) int {
+			if i := strings.IndexByte(string(rest), '\n'); i >= 0 {
+				return i + 1
+			}
+			return len(rest)
+		}}
+	case 2:
+		return &pieceReader{data: []byte(doc), next: func([]byte) int { return 1 }}
+	default:
+		r := d.r
+		return &pieceReader{data: []byte(doc), next: func(rest []byte) int { return 1 + r.Intn(40) }}
+	}
+}
+
+type pieceReader struct {
+	data []byte
+	next func(rest []byte) int
+}
+
+func (p *pieceReader) Read(b []byte) (int, error) {
+	if len(p.data) == 0 {
+		return 0, io.EOF
+	}
+	n := p.next(p.data)
+	if n > len(p.data) {
+		n = len(p.data)
+	}
+	if n > len(b) {
+		n = len(b)
+	}
+	copy(b, p.data[:n])
+	p.data = p.data[n:]
+	return n, nil
 }
